@@ -251,6 +251,7 @@ fn respond(line: &str) -> Option<String> {
             io::FAULT_KIND.with(|c| c.set(Other));
             Some(answer)
         }
+        ["walkshape", src] => parse(&unx(src)?).ok().map(|program| walk::walk_shape(&program)),
         // (harness only) a visitor that overrides the leaf callbacks only
         ["walkleaf", src, f] => {
             let f = optional_index(f)?;
